@@ -1,4 +1,5 @@
 """C05 — DAC waveforms are slot-exact and SAMPLER inverts them; argument validation."""
+import math
 import warnings
 from fractions import Fraction
 
@@ -465,7 +466,7 @@ def model_requests(case, res):
     if r is None:
         return []
     reqs.append(r)
-    if res.get("status") == "ok" and "signal" in res:
+    if res.get("status") == "ok" and "signal" in res and all(math.isfinite(x) for x in res["signal"]):
         vq, bq = numeric(case["vout"]), numeric(case["bias"])
         for k in case["ks"]:
             reqs.append(f"dac.sampler {k} {case['sps']} {_rats(res['signal'])} 0")
@@ -484,7 +485,7 @@ def _eq_exact(model_vals, impl_vals):
     if len(model_vals) != len(impl_vals):
         return f"length {len(model_vals)} vs {len(impl_vals)}"
     for i, (q, x) in enumerate(zip(model_vals, impl_vals)):
-        if Fraction(x) != q and float(q) != x:
+        if not math.isfinite(x) or (Fraction(x) != q and float(q) != x):      # NaN / inf never equals a model value
             return f"sample {i}: model {q} ({float(q)!r}), implementation {x!r}"
     return None
 
@@ -519,7 +520,7 @@ def _compare_gauss(case, res, rep):
         out.append(f"pulse: {len(mp)} model samples, {len(ip)} implementation samples")
     else:
         for i, (a, b) in enumerate(zip(mp, ip)):
-            if abs(a - b) > 1e-9:
+            if not (abs(a - b) <= 1e-9):           # `not <=` so that a NaN is reported
                 out.append(f"pulse[{i}]: model {a!r}, implementation {b!r}")
                 break
     ix = [complex(a, b) for a, b in zip(res["real"], res["imags"])]
@@ -529,7 +530,7 @@ def _compare_gauss(case, res, rep):
     else:
         tol = 1e-9 * scale * max(len(ix), 1)
         for i, (a, b) in enumerate(zip(mx, ix)):
-            if abs(a - b) > tol:
+            if not (abs(a - b) <= tol):
                 out.append(f"x[{i}]: model {a!r}, implementation {b!r} (direct convolution vs fftconvolve, tol {tol:.1e})")
                 break
     return out
@@ -583,6 +584,8 @@ def compare(case, res, reqs, replies):
         out.append("DAC " + d)
     pos = 1
     vq, bq = numeric(case["vout"]), numeric(case["bias"])
+    if len(replies) == 1:
+        return out          # no SAMPLER requests were sent (non-finite DAC output: already reported above / by the oracle)
     for k in case["ks"]:
         rep = replies[pos]
         pos += 1
@@ -712,7 +715,9 @@ def oracle(case, res):
             return v
         if case.get("c") not in (None, 0, 0.0):
             return v            # chirped pulse: only the length is demanded here (the waveform is tied to the model by `compare`)
-        if res["imag"] > 1e-9 * max(1.0, abs(vout)):
+        if not all(math.isfinite(x) for x in res["real"] + res["sampled"]):
+            return v + [("C05:gauss-nonfinite", f"sps={sps} T={T} m={m}: the Gaussian waveform contains NaN/inf")]
+        if not (res["imag"] <= 1e-9 * max(1.0, abs(vout))):
             v.append(("C05:gauss-imag", f"chirp-free pulse has imaginary part {res['imag']}"))
         y = [(x - bias) / vout for x in res["real"]]
         Teff = sps if T is None else T
@@ -723,14 +728,14 @@ def oracle(case, res):
             mx = max(y)
             plateau = [i for i, t in enumerate(y) if t >= mx - 1e-9]
             dpos = min(min(abs(i - (j * sps + sps / 2)), abs(i - (j * sps + (sps - 1) / 2))) for i in plateau)
-            if dpos > 1:
+            if not (dpos <= 1):
                 v.append(("C05:gauss-centre", f"sps={sps} T={Teff} m={m}: peak at sample {plateau[0]}, slot centre {j * sps + sps / 2}"))
-            if abs(mx - 1) > 0.05:
+            if not (abs(mx - 1) <= 0.05):
                 v.append(("C05:gauss-peak", f"sps={sps} T={Teff} m={m} Vout={vout}: peak {mx:.4f}·Vout"))
             if mx > 0:
                 above = [i for i, t in enumerate(y) if t >= mx / 2]
                 width = above[-1] - above[0] + 1
-                if abs(width - Teff) > 1:
+                if not (abs(width - Teff) <= 1):
                     v.append(("C05:gauss-fwhm", f"sps={sps} T={Teff} m={m}: {width} samples above half maximum"))
         # round trip at k = sps//2 (T <= sps: neighbouring pulses stay below half level; isolated ones: any T)
         if (Teff <= sps or isolated) and sps >= 8 and Teff >= sps / 2:
@@ -762,6 +767,8 @@ def oracle(case, res):
     vout = 1.0 if vq["t"] == "None" else float(vq["v"])
     bias = 0.0 if bq["t"] == "None" else float(bq["v"])
     sig = res["signal"]
+    if not all(math.isfinite(x) for x in sig):
+        return v + [("C05:nonfinite", f"sps={sps} shape={shape} Vout={case['vout']} bias={case['bias']}: the waveform contains NaN/inf")]
     duty = sps // 2
     for j, b in enumerate(bits):
         hi = bias + vout * b
